@@ -147,14 +147,16 @@ Proof.
     { apply Z.mod_small. split; [lia|]. eapply Z.lt_le_trans; [exact Hhi|]. apply Z.pow_le_mono_r; lia. }
     assert (Hrb : round_bits a k = 1).
     { unfold round_bits. rewrite Hq, Hh, Hl. destruct (Z.eqb_spec a 0); [lia|]. reflexivity. }
-    rewrite Hrb in *. cbn in E1. rewrite E1, Hq in *.
-    replace (1 - BIAS P - MB P - (1 - BIAS P - MB P)) with 0 by lia.
-    rewrite (E3 ltac:(discriminate)). cbn [Z.mul Z.add].
+    rewrite Hrb in E1, E3. change ((6 <=? 1) || (1 =? 3)) with false in E1, E3. cbv iota in E1, E3.
+    rewrite Z.add_0_r, Hq in E1.
+    assert (E3' : 1 mod 4 <> 0) by (vm_compute; discriminate).
+    rewrite (E3 E3'), E1.
+    replace (1 - BIAS P - MB P - (1 - BIAS P - MB P)) with 0 by lia. rewrite Z.mul_0_l, Z.add_0_l.
     destruct (Z.leb_spec ((2 * BIAS P + 1) * 2 ^ MB P) 0); [nia|]. reflexivity. }
   destruct (Z.leb_spec top (NORM_LIM P)) as [Hsub|Hnorm].
   { (* subnormal results (for f32 also the lowest normal binade) *)
     rewrite Z.max_r by lia.
-    replace (1 - BIAS P - MB P - (1 - BIAS P - MB P)) with 0 by lia. rewrite Z.mul_0_l, Z.add_0_l.
+    replace (1 - BIAS P - MB P - (1 - BIAS P - MB P)) with 0 by lia. rewrite !Z.mul_0_l, !Z.add_0_l.
     replace (exp + (BIAS P - 1) + MB P) with (- (1 - BIAS P - MB P - exp)) by lia.
     set (k := 1 - BIAS P - MB P - exp).
     assert (Hk : L - k <= MB P + 1) by (unfold k, top in *; lia).
@@ -165,7 +167,7 @@ Proof.
       { assert (2 ^ L * 2 ^ (- k) <= 2 ^ (MB P + 1)) by (rewrite <- pow2_split by lia; apply Z.pow_le_mono_r; lia).
         replace (2 * 2 ^ MB P) with (2 ^ (MB P + 1)) by (rewrite Z.pow_add_r by lia; ring).
         pose proof (pow2_pos (- k) ltac:(lia)). nia. }
-      rewrite Z.mod_small.
+      rewrite (Z.mod_small (a * 2 ^ (- k))).
       2:{ split; [pose proof (pow2_pos (- k) ltac:(lia)); nia|].
           assert (2 ^ (MB P + 1) <= 2 ^ W P) by (apply Z.pow_le_mono_r; lia).
           replace (2 * 2 ^ MB P) with (2 ^ (MB P + 1)) in Hb by (rewrite Z.pow_add_r by lia; ring). lia. }
@@ -189,11 +191,11 @@ Proof.
           destruct (Z.leb_spec 6 (round_bits a k)); destruct (Z.eqb_spec (round_bits a k) 3); cbn; lia. }
         rewrite Hadj, Z.add_0_r.
         symmetry in E2. apply Z.eqb_eq in E2.
-        assert (a / 2 ^ k * 2 ^ k = a).
+        assert (Hex0 : a / 2 ^ k * 2 ^ k = a).
         { pose proof (Z.div_mod a (2 ^ k) ltac:(pose proof (pow2_pos k); lia)). lia. }
-        rewrite H0, Z.compare_refl.
+        rewrite Hex0, Z.compare_refl.
         destruct (Z.leb_spec ((2 * BIAS P + 1) * 2 ^ MB P) (a / 2 ^ k)); [lia|]. reflexivity.
-      + rewrite (E3 Hz). unfold round_to_even_adjustment.
+      + rewrite E1 in E3. rewrite (E3 Hz). unfold round_to_even_adjustment.
         destruct ((6 <=? round_bits a k) || (round_bits a k =? 3)).
         * destruct (Z.leb_spec ((2 * BIAS P + 1) * 2 ^ MB P) (a / 2 ^ k + 1)); [lia|]. reflexivity.
         * rewrite Z.add_0_r.
